@@ -19,6 +19,8 @@ pub mod scratchpad;
 #[path = "gen/node_error.rs"]
 pub mod error;
 pub use error::{Error, Result};
+#[path = "gen/payment_vault.rs"]
+pub mod payment_vault;
 #[path = "gen/put_validation.rs"]
 pub mod put_validation;
 #[path = "gen/client_items.rs"]
